@@ -300,3 +300,58 @@ Proof.
   pose proof (itf8_spec_roundtrip w (itf8_wire v) [] Hw Lw' ltac:(rewrite Cv; exact E)) as B.
   rewrite A in B. congruence.
 Qed.
+
+(** * Round trip through any destination *)
+
+(** Round trip through a destination of any sufficient length. *)
+Lemma itf8_roundtrip_any v buf rest :
+  int32 v -> all_bytes rest = true -> itf8_spec_len (v mod 2^32) <= zlen buf ->
+  exists out,
+    itf8_Encode buf v = Ok (itf8_spec_len (v mod 2^32), out) /\
+    zlen out = zlen buf /\
+    skipn (Z.to_nat (itf8_spec_len (v mod 2^32))) out = skipn (Z.to_nat (itf8_spec_len (v mod 2^32))) buf /\
+    itf8_canon (firstn (Z.to_nat (itf8_spec_len (v mod 2^32))) out) = itf8_spec_encode v /\
+    itf8_Decode (firstn (Z.to_nat (itf8_spec_len (v mod 2^32))) out ++ rest) = Ok (v, itf8_spec_len (v mod 2^32), true).
+Proof.
+  intros Hv Hr Hlen. set (n := itf8_spec_len (v mod 2^32)) in *.
+  destruct (itf8_wire_props v Hv) as (Hl & Hb & Hc). fold n in Hl.
+  assert (Hwl : length (itf8_wire v) = Z.to_nat n) by (rewrite <- Hl; unfold zlen; rewrite Nat2Z.id; reflexivity).
+  exists (itf8_wire v ++ skipn (Z.to_nat n) buf).
+  rewrite itf8_Encode_any by assumption. fold n. destruct (Z.ltb_spec (zlen buf) n); [lia|].
+  split; [reflexivity|].
+  assert (Hf : firstn (Z.to_nat n) (itf8_wire v ++ skipn (Z.to_nat n) buf) = itf8_wire v).
+  { rewrite <- Hwl. apply firstn_app_exact. }
+  rewrite Hf. split.
+  { rewrite zlen_app, Hl. unfold zlen in *. rewrite skipn_length. lia. }
+  split.
+  { rewrite <- Hwl at 1. rewrite skipn_app, Nat.sub_diag, skipn_all. reflexivity. }
+  split; [assumption|].
+  apply itf8_Decode_accepts; assumption.
+Qed.
+
+Lemma ltf8_roundtrip_any v buf rest :
+  int64 v -> all_bytes rest = true -> ltf8_spec_len (v mod 2^64) <= zlen buf ->
+  exists out,
+    ltf8_Encode buf v = Ok (ltf8_spec_len (v mod 2^64), out) /\
+    zlen out = zlen buf /\
+    skipn (Z.to_nat (ltf8_spec_len (v mod 2^64))) out = skipn (Z.to_nat (ltf8_spec_len (v mod 2^64))) buf /\
+    firstn (Z.to_nat (ltf8_spec_len (v mod 2^64))) out = ltf8_spec_encode v /\
+    ltf8_Decode (firstn (Z.to_nat (ltf8_spec_len (v mod 2^64))) out ++ rest) = Ok (v, ltf8_spec_len (v mod 2^64), true).
+Proof.
+  intros Hv Hr Hlen. set (n := ltf8_spec_len (v mod 2^64)) in *.
+  destruct (ltf8_spec_encode_props v Hv) as (Hl & Hb). fold n in Hl.
+  assert (Hwl : length (ltf8_spec_encode v) = Z.to_nat n) by (rewrite <- Hl; unfold zlen; rewrite Nat2Z.id; reflexivity).
+  exists (ltf8_spec_encode v ++ skipn (Z.to_nat n) buf).
+  rewrite ltf8_Encode_any by assumption. fold n. destruct (Z.ltb_spec (zlen buf) n); [lia|].
+  split; [reflexivity|].
+  assert (Hf : firstn (Z.to_nat n) (ltf8_spec_encode v ++ skipn (Z.to_nat n) buf) = ltf8_spec_encode v).
+  { rewrite <- Hwl. apply firstn_app_exact. }
+  rewrite Hf. split.
+  { rewrite zlen_app, Hl. unfold zlen in *. rewrite skipn_length. lia. }
+  split.
+  { rewrite <- Hwl at 1. rewrite skipn_app, Nat.sub_diag, skipn_all. reflexivity. }
+  split; [reflexivity|].
+  rewrite ltf8_Decode_spec.
+  - rewrite (ltf8_spec_roundtrip v rest Hv). reflexivity.
+  - unfold all_bytes in *. rewrite forallb_app, Hb, Hr. reflexivity.
+Qed.
